@@ -19,6 +19,8 @@ import GoldilocksVerif.Lemmas.NttTop
 import GoldilocksVerif.Lemmas.BridgeNttTop
 import GoldilocksVerif.Lemmas.BridgeNttCtor
 import GoldilocksVerif.Lemmas.BridgeNttBuf
+import GoldilocksVerif.Lemmas.BridgeNttBlocks
+import GoldilocksVerif.Lemmas.BridgeNttBufEq
 
 namespace GoldilocksVerif.C03
 open GoldilocksVerif.Model.Ntt GoldilocksVerif.NttSpec Finset
@@ -296,5 +298,186 @@ theorem C03_generated_forward_transform_buffer (maxDomainSize extension : Nat) (
   rw [hsz]; by_cases h : D = Sx <;> simp [h, hsrc, hdsts]
 
 end generated
+
+/-! ### the generated model, EVERY `nblock` and size 1 (Lemmas/NttIndep.lean, BridgeParcpy.lean, BridgeNttSize1.lean, BridgeNttBlocks.lean)
+  The theorems above cover the call shape "`nblock` clamps to 1, size ≥ 2".  Below: every `nblock : u_int64_t` (clamped by the
+  translated code to `1 … ncols`; for more than one block the translated code allocates the temporary destination `dst_`, runs
+  `NTT_iters` per column block into it — reusing the scratch block and `dst_` the previous block dirtied —, scatters the block
+  into the destination, frees both), and every size `1 ≤ 2^d ≤ 2^30` (size 1 goes through the translated `Goldilocks::parcpy`).
+  FUEL: `itersFuel self d ncols` = 64 for d ≥ 1; for d = 0 it is `max 64 (min(ncols, max(1, (int) nThreads)) + 1)` because the
+  chunk loop of `parcpy` is a `while` loop of the generated model (`C03_generated_fuel`). -/
+section generated_all
+open GoldilocksVerif.BridgeNtt Gen.NttGen
+
+/-- the fuel bound of the theorems below is met by every `fuel ≥ 64` that, for size 1 only, also exceeds the column count or
+    the thread count of the object -/
+theorem C03_generated_fuel (self : NTT_Goldilocks) (d ncols fuel : Nat) (h64 : 64 ≤ fuel)
+    (h1 : d = 0 → ncols < fuel ∨ self.nThreads.toNat < fuel) : itersFuel self d ncols ≤ fuel := by
+  unfold itersFuel
+  by_cases hd : d = 0
+  · rw [if_pos hd]
+    unfold parFuel ParCopy.threads I32.ofU32
+    have ht : (if self.nThreads.toInt < 1 then 1 else self.nThreads.toInt.toNat) ≤ max 1 self.nThreads.toNat := by
+      rw [BitVec.toInt_eq_toNat_cond]
+      split <;> split <;> omega
+    rcases h1 hd with h | h <;> omega
+  · rw [if_neg hd]; exact h64
+
+/-- generated `NTT` = the model's `ntt`, every `nblock`, every size 1 ≤ 2^K ≤ 2^30, bit for bit: the heap ends with the
+    destination block holding the model's result and nothing else changed -/
+theorem C03_generated_NTT_eq_model_all (fuel : Nat) (hp : Heap) (self : NTT_Goldilocks) (o : Obj)
+    (hrep : ObjRep hp self o) (hin : ObjIn hp self) (D Sx : Nat) (hD : D < hp.size) (hSx : Sx < hp.size) (hD0 : D ≠ 0)
+    (hfrD : ObjFrame self D) (mode : DstMode) (hmode : mode = .other ↔ D ≠ Sx)
+    (dst : Ptr) (hdst : (if (dst == Ptr.null) = true then (⟨Sx, 0⟩ : Ptr) else dst) = ⟨D, 0⟩)
+    (K N NC : Nat) (nphase nblock : BitVec 64) (inverse extend : Bool)
+    (hK : K ≤ 30) (hN : N = 2 ^ K) (hKs : K ≤ o.s) (hos : o.s ≤ 32) (hNC1 : 1 ≤ NC)
+    (hNNC8 : N * NC * 8 < 2 ^ 64) (hext31 : o.extension < 2 ^ 31) (hcache : extend = true → o.rcache ≠ none)
+    (hf : itersFuel self K NC ≤ fuel) :
+    match ntt o mode (hp.block D) (hp.block Sx) N NC nphase.toNat nblock.toNat inverse extend with
+    | .ok (d, _) => NTT_NTT fuel hp self dst ⟨Sx, 0⟩ (bv N) (bv NC) Ptr.null nphase nblock inverse extend =
+        some (hp.setBlock D d)
+    | .error _ => NTT_NTT fuel hp self dst ⟨Sx, 0⟩ (bv N) (bv NC) Ptr.null nphase nblock inverse extend = none :=
+  NTT_gen_all fuel hp self o hrep hin D Sx hD hSx hD0 hfrD mode hmode dst hdst K N NC nphase nblock inverse extend hK hN hKs hos
+    hNC1 hNNC8 hext31 hcache hf
+
+/-- the bit-level fact behind it (hand model only): `nttIters` does not depend on the initial content of the scratch buffer nor,
+    on the first size·ncols words, on the initial content of a destination buffer distinct from the source -/
+theorem C03_nttIters_ignores_scratch (o : Obj) (dstB dstB' srcB auxB auxB' : Buf) (d oc nc nca nphase : Nat)
+    (inverse extend : Bool) (hd : 2 ^ d * nc ≤ dstB.size) (hd' : 2 ^ d * nc ≤ dstB'.size)
+    (haux : 2 ^ d * nc ≤ auxB.size) (haux' : 2 ^ d * nc ≤ auxB'.size) :
+    (∃ r r', nttIters o dstB srcB auxB false (2 ^ d) oc nc nca nphase inverse extend = .ok (r, srcB) ∧
+        nttIters o dstB' srcB auxB' false (2 ^ d) oc nc nca nphase inverse extend = .ok (r', srcB) ∧
+        ∀ i, i < 2 ^ d * nc → r.getD i 0#64 = r'.getD i 0#64) ∨
+    (∃ e, nttIters o dstB srcB auxB false (2 ^ d) oc nc nca nphase inverse extend = .error e ∧
+        nttIters o dstB' srcB auxB' false (2 ^ d) oc nc nca nphase inverse extend = .error e) := by
+  rcases nttIters_indep o dstB dstB' srcB auxB auxB' false d oc nc nca nphase inverse extend (fun _ => False)
+    ⟨hd, hd', fun i hi => absurd hi id⟩ haux haux' with ⟨r, r', e, e', hag⟩ | ⟨er, e, e'⟩
+  · exact Or.inl ⟨r, r', e, e', fun i hi => hag.eq i (Or.inr hi)⟩
+  · exact Or.inr ⟨er, e, e'⟩
+
+/-- **the property on the generated function, every `nblock`, every size 1 ≤ 2^d ≤ min(maxDomainSize, 2^30)**: for an object
+    state representing a constructed object, every nphase, every nblock, no caller buffer, every destination mode: the TRANSLATED
+    `NTT` returns, changes only the destination block, and that block holds the DFT of every column -/
+theorem C03_generated_forward_transform_all (maxDomainSize extension : Nat) (o : Obj)
+    (hobj : mkObj maxDomainSize extension = some o) (hext : extension ≤ 1) (d : Nat) (hd30 : d ≤ 30) (hn : 2 ^ d ≤ maxDomainSize)
+    (fuel : Nat) (hp : Heap) (self : NTT_Goldilocks) (hrep : ObjRep hp self o) (hin : ObjIn hp self)
+    (D Sx : Nat) (hD : D < hp.size) (hSx : Sx < hp.size) (hD0 : D ≠ 0) (hfrD : ObjFrame self D)
+    (mode : DstMode) (hmode : mode = .other ↔ D ≠ Sx)
+    (dst : Ptr) (hdst : (if (dst == Ptr.null) = true then (⟨Sx, 0⟩ : Ptr) else dst) = ⟨D, 0⟩)
+    (ncols : Nat) (nphase nblock : BitVec 64) (hnc : 1 ≤ ncols) (hbound : 2 ^ d * ncols * 8 < 2 ^ 64)
+    (hsrc : (hp.block Sx).size = 2 ^ d * ncols) (hdsts : mode = .other → (hp.block D).size = 2 ^ d * ncols)
+    (hf : itersFuel self d ncols ≤ fuel) :
+    ∃ out, NTT_NTT fuel hp self dst ⟨Sx, 0⟩ (bv (2 ^ d)) (bv ncols) Ptr.null nphase nblock false false = some (hp.setBlock D out) ∧
+      out.size = 2 ^ d * ncols ∧
+      ∀ k c, k < 2 ^ d → c < ncols →
+        den (out.getD (k * ncols + c) 0#64)
+          = ∑ j ∈ range (2 ^ d), den ((hp.block Sx).getD (j * ncols + c) 0#64) * omega d ^ (j * k) := by
+  have hm : maxDomainSize ≠ 0 := by have := Nat.two_pow_pos d; omega
+  obtain ⟨hs1, hs2, hs3⟩ := mkObj_s_val maxDomainSize extension o hm hobj
+  have hdl : d ≤ log2 maxDomainSize := (Nat.le_log2 hm).mpr hn
+  obtain ⟨out, e, hsz, hdft⟩ := C03_forward_transform maxDomainSize extension o hobj hext d hn ncols nphase.toNat nblock.toNat
+    hnc mode (hp.block D) (hp.block Sx) hsrc hdsts
+  have hg := NTT_gen_all fuel hp self o hrep hin D Sx hD hSx hD0 hfrD mode hmode dst hdst d (2 ^ d) ncols nphase nblock false false
+    hd30 rfl (by omega) hs2 hnc hbound (by omega) (by intro h; cases h) hf
+  rw [e] at hg
+  exact ⟨out, hg, hsz, hdft⟩
+
+/-- **end to end, every `nblock`, every size 1 ≤ 2^d**: translated constructor, then translated `NTT`, on any heap.  Fuel: 64, and
+    for size 1 more than the column count -/
+theorem C03_generated_construct_and_transform_all (fuel : Nat) (hf : 64 ≤ fuel) (hp : Heap) (self0 : NTT_Goldilocks)
+    (m : BitVec 64) (thr : BitVec 32) (e : Nat) (he : e ≤ 1) (hm32 : m.toNat ≤ 2 ^ 32)
+    (d : Nat) (hd30 : d ≤ 30) (hn : 2 ^ d ≤ m.toNat)
+    (D Sx : Nat) (hD : D < hp.size) (hSx : Sx < hp.size) (hD0 : D ≠ 0)
+    (mode : DstMode) (hmode : mode = .other ↔ D ≠ Sx)
+    (dst : Ptr) (hdst : (if (dst == Ptr.null) = true then (⟨Sx, 0⟩ : Ptr) else dst) = ⟨D, 0⟩)
+    (ncols : Nat) (nphase nblock : BitVec 64) (hnc : 1 ≤ ncols) (hbound : 2 ^ d * ncols * 8 < 2 ^ 64)
+    (hf1 : d = 0 → ncols < fuel)
+    (hsrc : (hp.block Sx).size = 2 ^ d * ncols) (hdsts : mode = .other → (hp.block D).size = 2 ^ d * ncols) :
+    ∃ hp1 self out, NTT_ctor fuel hp self0 m thr (e : Int) = some (hp1, self) ∧
+      NTT_NTT fuel hp1 self dst ⟨Sx, 0⟩ (bv (2 ^ d)) (bv ncols) Ptr.null nphase nblock false false = some (hp1.setBlock D out) ∧
+      out.size = 2 ^ d * ncols ∧
+      ∀ k c, k < 2 ^ d → c < ncols →
+        den (out.getD (k * ncols + c) 0#64)
+          = ∑ j ∈ range (2 ^ d), den ((hp.block Sx).getD (j * ncols + c) 0#64) * omega d ^ (j * k) := by
+  have hmn : m.toNat ≠ 0 := by have := Nat.two_pow_pos d; omega
+  have hm0 : m ≠ 0#64 := by intro h; rw [h] at hmn; exact hmn rfl
+  obtain ⟨o, hobj⟩ := mkObj_some m.toNat e (by
+    show Nat.log2 m.toNat ≤ 32
+    by_contra h
+    have := (Nat.le_log2 hmn).mp (show 33 ≤ Nat.log2 m.toNat by omega)
+    omega)
+  obtain ⟨self, hc, hrep, hin, _⟩ := ctor_rep fuel hf hp (by omega) self0 m thr e hm0 o hobj
+  have hb1 : ∀ c, c < hp.size → ((hp.push o.roots).push o.powTwoInv).block c = hp.block c := by
+    intro c hc'
+    rw [Heap.block_push_lt _ _ _ (by simp; omega), Heap.block_push_lt _ _ _ hc']
+  have hfr : ObjFrame self D := by
+    have h := ctor_gen fuel hf hp (by omega) self0 m thr e hm0
+    rw [hobj] at h
+    obtain ⟨self', h1, _, h3, h4, h5, h6, _, _⟩ := h
+    have : self' = self := by
+      rw [hc] at h1; injection h1 with h1; injection h1 with _ h1; exact h1.symm
+    subst this
+    refine ⟨?_, ?_, ?_, ?_⟩
+    · rw [h3]; show D ≠ hp.size; omega
+    · rw [h4]; show D ≠ hp.size + 1; omega
+    · rw [h5]; exact hD0
+    · rw [h6]; exact hD0
+  obtain ⟨out, hntt, hsz, hdft⟩ := C03_generated_forward_transform_all m.toNat e o hobj he d hd30 hn fuel
+    ((hp.push o.roots).push o.powTwoInv) self hrep hin D Sx (by simp; omega) (by simp; omega) hD0 hfr mode hmode dst hdst ncols
+    nphase nblock hnc hbound (by rw [hb1 _ hSx]; exact hsrc) (by intro h; rw [hb1 _ hD]; exact hdsts h)
+    (C03_generated_fuel self d ncols fuel hf (fun h => Or.inl (hf1 h)))
+  refine ⟨_, self, out, hc, hntt, hsz, ?_⟩
+  intro k c hk hc'
+  rw [hdft k c hk hc', hb1 _ hSx]
+
+/-- generated `NTT` WITH a caller scratch buffer (block `B`, ANY content, at least size·ncols words) = the model's `ntt` (which
+    takes a zero-filled scratch buffer of its own), bit for bit, every `nblock`, every size 1 ≤ 2^K ≤ 2^30: the destination block
+    holds the model's result, the buffer block keeps its size, nothing else changes -/
+theorem C03_generated_NTT_buffer_eq_model (fuel : Nat) (hp : Heap) (self : NTT_Goldilocks) (o : Obj)
+    (hrep : ObjRep hp self o) (hin : ObjIn hp self) (D Sx B : Nat) (hD : D < hp.size) (hSx : Sx < hp.size) (hB : B < hp.size)
+    (hD0 : D ≠ 0) (hB0 : B ≠ 0) (hDB : D ≠ B) (hSB : Sx ≠ B) (hfrD : ObjFrame self D) (hfrB : ObjFrame self B)
+    (mode : DstMode) (hmode : mode = .other ↔ D ≠ Sx)
+    (dst : Ptr) (hdst : (if (dst == Ptr.null) = true then (⟨Sx, 0⟩ : Ptr) else dst) = ⟨D, 0⟩)
+    (K N NC : Nat) (nphase nblock : BitVec 64) (inverse extend : Bool)
+    (hK : K ≤ 30) (hN : N = 2 ^ K) (hKs : K ≤ o.s) (hos : o.s ≤ 32) (hNC1 : 1 ≤ NC)
+    (hNNC8 : N * NC * 8 < 2 ^ 64) (hext31 : o.extension < 2 ^ 31) (hcache : extend = true → o.rcache ≠ none)
+    (hf : itersFuel self K NC ≤ fuel) (hdsz : N * NC ≤ (hp.block D).size) (hbuf : N * NC ≤ (hp.block B).size) :
+    match ntt o mode (hp.block D) (hp.block Sx) N NC nphase.toNat nblock.toNat inverse extend with
+    | .ok (d, _) => ∃ X', NTT_NTT fuel hp self dst ⟨Sx, 0⟩ (bv N) (bv NC) ⟨B, 0⟩ nphase nblock inverse extend =
+        some ((hp.setBlock D d).setBlock B X') ∧ X'.size = (hp.block B).size
+    | .error _ => NTT_NTT fuel hp self dst ⟨Sx, 0⟩ (bv N) (bv NC) ⟨B, 0⟩ nphase nblock inverse extend = none :=
+  NTT_gen_buf_all fuel hp self o hrep hin D Sx B hD hSx hB hD0 hB0 hDB hSB hfrD hfrB mode hmode dst hdst K N NC nphase nblock
+    inverse extend hK hN hKs hos hNC1 hNNC8 hext31 hcache hf hdsz hbuf
+
+/-- **the property on the generated function, caller scratch buffer, every `nblock`, every size 1 ≤ 2^d** -/
+theorem C03_generated_forward_transform_buffer_all (maxDomainSize extension : Nat) (o : Obj)
+    (hobj : mkObj maxDomainSize extension = some o) (hext : extension ≤ 1) (d : Nat) (hd30 : d ≤ 30)
+    (hn : 2 ^ d ≤ maxDomainSize)
+    (fuel : Nat) (hp : Heap) (self : NTT_Goldilocks) (hrep : ObjRep hp self o) (hin : ObjIn hp self)
+    (D Sx B : Nat) (hD : D < hp.size) (hSx : Sx < hp.size) (hB : B < hp.size) (hD0 : D ≠ 0) (hB0 : B ≠ 0) (hDB : D ≠ B)
+    (hSB : Sx ≠ B) (hfrD : ObjFrame self D) (hfrB : ObjFrame self B)
+    (mode : DstMode) (hmode : mode = .other ↔ D ≠ Sx)
+    (dst : Ptr) (hdst : (if (dst == Ptr.null) = true then (⟨Sx, 0⟩ : Ptr) else dst) = ⟨D, 0⟩)
+    (ncols : Nat) (nphase nblock : BitVec 64) (hnc : 1 ≤ ncols) (hbound : 2 ^ d * ncols * 8 < 2 ^ 64)
+    (hsrc : (hp.block Sx).size = 2 ^ d * ncols) (hdsts : (hp.block D).size = 2 ^ d * ncols)
+    (hbuf : 2 ^ d * ncols ≤ (hp.block B).size) (hf : itersFuel self d ncols ≤ fuel) :
+    ∃ out X', NTT_NTT fuel hp self dst ⟨Sx, 0⟩ (bv (2 ^ d)) (bv ncols) ⟨B, 0⟩ nphase nblock false false =
+        some ((hp.setBlock D out).setBlock B X') ∧
+      out.size = 2 ^ d * ncols ∧ X'.size = (hp.block B).size ∧
+      ∀ k c, k < 2 ^ d → c < ncols →
+        den (out.getD (k * ncols + c) 0#64)
+          = ∑ j ∈ range (2 ^ d), den ((hp.block Sx).getD (j * ncols + c) 0#64) * omega d ^ (j * k) := by
+  have hm : maxDomainSize ≠ 0 := by have := Nat.two_pow_pos d; omega
+  obtain ⟨hs1, hs2, hs3⟩ := mkObj_s_val maxDomainSize extension o hm hobj
+  have hdl : d ≤ log2 maxDomainSize := (Nat.le_log2 hm).mpr hn
+  obtain ⟨out, e, hsz, hdft⟩ := C03_forward_transform maxDomainSize extension o hobj hext d hn ncols nphase.toNat nblock.toNat
+    hnc mode (hp.block D) (hp.block Sx) hsrc (fun _ => hdsts)
+  have hg := NTT_gen_buf_all fuel hp self o hrep hin D Sx B hD hSx hB hD0 hB0 hDB hSB hfrD hfrB mode hmode dst hdst d (2 ^ d) ncols
+    nphase nblock false false hd30 rfl (by omega) hs2 hnc hbound (by omega) (by intro h; cases h) hf (by omega) hbuf
+  rw [e] at hg
+  obtain ⟨X', hX, hXs⟩ := hg
+  exact ⟨out, X', hX, hsz, hXs, hdft⟩
+
+end generated_all
 
 end GoldilocksVerif.C03
